@@ -515,7 +515,10 @@ def apply(it, fn, args, dest_ty, term, caller, depth):
             or path.startswith("core::io::stdio::_print") or path.startswith("log::"):
         return Opaque(dest_ty, {"fmt"})
 
-    return NotImplemented
+    # ---- second batch (idioms not used by the pinned tree)
+    from . import models2
+    import sys
+    return models2.apply(it, fn, args, dest_ty, term, caller, depth, sys.modules[__name__])
 
 
 def _is_derived(it, fn):
@@ -961,7 +964,7 @@ def iter_model(it, fn, name, args, dest_ty, term, caller, depth):
                 cur, item = iter_next(it, cur, term, caller, depth)
                 if item.variant == 0:
                     break
-                v = item.fields[0]
+                v = deref_val(it, item.fields[0])
                 acc = v if acc is None else bv.binop("Add", acc, v)
             if acc is None:
                 iti = it.int_of_ty(dest_ty) or (64, False, "int")
@@ -1204,10 +1207,28 @@ def deque_model(it, name, fn, args, dest_ty):
         if items is not None:
             it.write(r.cell, r.path, DequeV(v.elems + tuple(items)))
             return Tup([])
-    if name in ("back", "front"):
+    if name in ("back", "front", "back_mut", "front_mut"):
         if not v.elems:
             return none()
-        return some(Ref(r.cell, r.path + (("e", len(v.elems) - 1 if name == "back" else 0),)))
+        return some(Ref(r.cell, r.path + (("e", len(v.elems) - 1 if name.startswith("back") else 0),)))
+    if name in ("pop_front", "pop_back"):
+        if not v.elems:
+            return none()
+        if name == "pop_front":
+            it.write(r.cell, r.path, DequeV(v.elems[1:]))
+            return some(v.elems[0])
+        it.write(r.cell, r.path, DequeV(v.elems[:-1]))
+        return some(v.elems[-1])
+    if name in ("get", "get_mut") and len(args) == 2 and isinstance(args[1], Int) and args[1].is_conc():
+        i = args[1].val
+        return some(Ref(r.cell, r.path + (("e", i),))) if i < len(v.elems) else none()
+    if name == "truncate" and len(args) == 2 and isinstance(args[1], Int) and args[1].is_conc():
+        it.write(r.cell, r.path, DequeV(v.elems[:args[1].val]))
+        return Tup([])
+    if name == "contains" and len(args) == 2:
+        x = deref_val(it, args[1])
+        if isinstance(x, Int) and x.is_conc() and all(isinstance(e, Int) and e.is_conc() for e in v.elems):
+            return mkbool(any(e.val == x.val for e in v.elems))
     return NotImplemented
 
 
